@@ -309,24 +309,25 @@ Print Assumptions C03_reject_direction_refuted_chunk_size_cr_boundary.
    Vocabulary (Proofs/HttpRespSeg.v, HttpRespChunk.v):
      rwf s             invariant of the parser state between two feed_data calls (C03_resp_wf_spelled)
      rtail_ok lim s    the buffered partial chunk-size / trailer line passes the length re-check of the next call
-     rclean_st s       the read did NOT end (a) right after an optional CR that follows chunk data, nor
-                       (b) right after the last-chunk line.  These are the only two places where the lax
-                       parser's CR skipping looks at the read boundary: (a) the next read skips one more
-                       CR; (b) the CR after the last-chunk line is skipped only within the same read.
-                       In the model the two states are RChunked (RDataEnd true) / RChunked RTrail0.
+     rclean_st s       the read did NOT end right after an optional CR that follows chunk data.  That is
+                       the only place left where the lax parser's CR skipping looks at the read boundary
+                       (the next read skips one more CR); in the model the state RChunked (RDataEnd true).
+                       (The second such place, the CR after the last-chunk line, was repaired in /repo
+                       eb945bb: nothing is skipped there any more, the model has no special state for it.)
      rresume_st s y    rclean_st s, or the bytes y that follow the boundary are read the same way as without
-                       it: y is empty, or in state (a) y does not start with CR, in state (b) y does not
-                       start with CR or starts with a line made of CRs only (so "0 CRLF" | "CRLF" is fine)
+                       it: y is empty or does not start with CR
      rboundaries_safe  rresume_st at every read boundary followed by a read, y = the rest of the stream
      rboundaries_clean rclean_st at every such boundary (implies rboundaries_safe)
      robs, rprepend    as obs / prepend above
 
    Summary.  The unrestricted ACCEPT-direction statements are FALSE of the faithful model
-   (C03_resp_split_accept_refuted_*, C03_resp_seg_accept_refuted: both witnesses replayed on the
-   implementation, known findings C03-lax-double-cr and C03-lax-cr-after-last-chunk).  With safe read
-   boundaries (rresume_st: everything except exactly those two finding families) they hold in full, for
-   all configurations, states and streams (C03_resp_*_partial): same final state, messages, fields,
-   body bytes, chunk ends, eof / exception marks, unconsumed bytes.
+   (C03_resp_split_accept_refuted_double_cr, C03_resp_seg_accept_refuted: witness replayed on the
+   implementation, open known finding C03-lax-double-cr).  With safe read boundaries (rresume_st:
+   everything except exactly that finding family, CR CR after chunk data with the read boundary inside
+   the CR run) they hold in full, for all configurations, states and streams (C03_resp_*_partial): same
+   final state, messages, fields, body bytes, chunk ends, eof / exception marks, unconsumed bytes.  The
+   boundary right after the last-chunk line ("0 CRLF" | "CR ...", former finding
+   C03-lax-cr-after-last-chunk, fixed) is inside the theorems (C03_resp_cr_after_last_chunk_fixed).
    REJECT direction: additionally refuted by the CR/LF boundary at a line limit. *)
 From AV Require Import Lib.Utf8Decode Generated.HttpRespGen Model.HttpResp
   Proofs.HttpRespBase Proofs.HttpRespChunk Proofs.HttpRespSeg Proofs.HttpRespLimits Proofs.HttpRespEx.
@@ -353,7 +354,7 @@ Theorem C03_resp_wf_spelled : forall s, rwf s ->
     | RLength rem => 0 < rem /\ rctail p = [] /\ rtlines p = []
     | RUntilEof => rctail p = [] /\ rtlines p = []
     | RChunked (RData rem) => 0 < rem /\ rctail p = []
-    | RChunked (RDataEnd _) | RChunked RTrail0 => rctail p = []
+    | RChunked (RDataEnd _) => rctail p = []
     | RChunked _ => has_byte 10 (rctail p) = false
     end.
 Proof. exact rwf_spelled. Qed.
@@ -396,7 +397,7 @@ Print Assumptions C03_resp_chunked_loop_never_out_of_fuel.
 
 (* ------------------------------------------------------------------ R3. two reads *)
 (* the full-strength statement (the one proved for the request parser, C03_split_accept) is FALSE:
-   witness (a) "... 3 CRLF abc CR" | "CR LF 0 CRLF CRLF": both reads return normally, one read of the
+   witness "... 3 CRLF abc CR" | "CR LF 0 CRLF CRLF": both reads return normally, one read of the
    same bytes raises TransferEncodingError (CR CR LF after chunk data) *)
 Theorem C03_resp_split_accept_refuted_double_cr :
   ~ (forall cfg s a b acc s1 acc1 lo1 s2 acc2 lo2,
@@ -407,23 +408,15 @@ Theorem C03_resp_split_accept_refuted_double_cr :
 Proof. exact refute_split_double_cr. Qed.
 Print Assumptions C03_resp_split_accept_refuted_double_cr.
 
-(* witness (b) "... 0 CRLF" | "CR X: y CRLF": both reads return normally and so does one read, but the
-   split run has collected the trailer line "CR X: y", the one-read run "X: y" (C03_resp_split_witnesses) *)
-Theorem C03_resp_split_accept_refuted_cr_after_last_chunk :
-  ~ (forall cfg s a b acc s1 acc1 lo1 s2 acc2 lo2,
-       rwf s ->
-       rfeed cfg s a acc = (s1, acc1, OOk lo1) ->
-       rfeed cfg s1 b acc1 = (s2, acc2, OOk lo2) ->
-       rfeed cfg s (a ++ b) acc = (s2, acc2, OOk (lo1 ++ lo2))).
-Proof. exact refute_split_cr_after_last_chunk. Qed.
-Print Assumptions C03_resp_split_accept_refuted_cr_after_last_chunk.
-
+(* the boundary state of the witness is the unclean one; the boundary right after the last-chunk line
+   ("... 0 CRLF" | "CR X: y CRLF", witness of the former finding C03-lax-cr-after-last-chunk) is an
+   ordinary trailers state since repair eb945bb, and split = one read there, state included *)
 Example C03_resp_split_witnesses :
   (pkind_of (fst (fst r1_ab)) = Some (RChunked (RDataEnd true), [], []) /\ rclean_st (fst (fst r1_ab)) = false /\
-   pkind_of (fst (fst r1_cd)) = Some (RChunked RTrail0, [], []) /\ rclean_st (fst (fst r1_cd)) = false) /\
+   pkind_of (fst (fst r1_cd)) = Some (RChunked RTrailers, [], []) /\ rclean_st (fst (fst r1_cd)) = true) /\
   (pkind_of (fst (fst r2_cd)) = Some (RChunked RTrailers, [], [[13; 88; 58; 32; 121]]) /\
-   pkind_of (fst (fst (rfeed rcfg0 rinit (w_c ++ w_d) []))) = Some (RChunked RTrailers, [], [[88; 58; 32; 121]])).
-Proof. exact (conj witnesses_unclean cd_split_vs_one). Qed.
+   rfeed rcfg0 rinit (w_c ++ w_d) [] = (fst (fst r2_cd), snd (fst r2_cd), OOk [])).
+Proof. exact (conj witnesses_unclean cd_split_eq_one). Qed.
 Print Assumptions C03_resp_split_witnesses.
 
 (* what holds: with a safe boundary, the accept direction in full *)
@@ -487,7 +480,7 @@ Proof. exact (conj rclean_resume_st rboundaries_clean_safe). Qed.
 Print Assumptions C03_resp_clean_is_safe.
 
 (* non-vacuity, unclean but safe: "... 3 CRLF abc CR" | "LF 0 CRLF" | "CRLF" - the first boundary is in
-   state (a), the second in state (b); three reads = one read *)
+   the unclean state, the second right after the last-chunk line; three reads = one read *)
 Example C03_resp_seg_example_unclean_safe :
   rboundaries_clean rcfg0 rinit [y_a; y_b; y_c] [] = false /\
   rboundaries_safe rcfg0 rinit [y_a; y_b; y_c] [] = true /\
@@ -497,11 +490,12 @@ Example C03_resp_seg_example_unclean_safe :
 Proof. exact ex_safe_unclean_reads. Qed.
 Print Assumptions C03_resp_seg_example_unclean_safe.
 
-(* the hypothesis excludes exactly the witnesses of the refutations *)
+(* the hypothesis excludes exactly the witness of the refutations; after the last-chunk line every
+   continuation is safe *)
 Example C03_resp_witnesses_unsafe :
-  rresume_st (fst (fst r1_ab)) w_b = false /\ rresume_st (fst (fst r1_cd)) w_d = false /\
-  rresume_st (fst (fst r1_cd)) w_d2 = false /\
-  rboundaries_safe rcfg0 rinit [w_a; w_b] [] = false /\ rboundaries_safe rcfg0 rinit [w_c; w_d2] [] = false.
+  rresume_st (fst (fst r1_ab)) w_b = false /\ rboundaries_safe rcfg0 rinit [w_a; w_b] [] = false /\
+  rresume_st (fst (fst r1_cd)) w_d = true /\ rresume_st (fst (fst r1_cd)) w_d2 = true /\
+  rboundaries_safe rcfg0 rinit [w_c; w_d2] [] = true.
 Proof. exact witnesses_unsafe. Qed.
 Print Assumptions C03_resp_witnesses_unsafe.
 
@@ -541,14 +535,15 @@ Example C03_resp_seg_consumed_example :
 Proof. exact ex_rejected_consumed. Qed.
 Print Assumptions C03_resp_seg_consumed_example.
 
-(* a complete stream accepted in one read, rejected when the read boundary falls right after the
-   last-chunk line ("0 CRLF" | "CR X: y CRLF CRLF") *)
-Theorem C03_resp_reject_direction_refuted_cr_after_last_chunk :
-  exists cfg segs e,
-    rdigest (rrun_segs cfg rinit segs [] []) = (OErr e, [(200, [97; 98; 99], [3], false, Some e)]) /\
-    rdigest (rrun_segs cfg rinit [concat segs] [] []) = (OOk [], [(200, [97; 98; 99], [3], true, None)]).
-Proof. exact (ex_intro _ rcfg0 (ex_intro _ [w_c; w_d2] (ex_intro _ EInvalidHeader refute_reject_cr_after_last_chunk))). Qed.
-Print Assumptions C03_resp_reject_direction_refuted_cr_after_last_chunk.
+(* former finding C03-lax-cr-after-last-chunk (fixed: /repo eb945bb): "0 CRLF" | "CR X: y CRLF CRLF" is now
+   rejected identically (InvalidHeader, same message marks) in one read and when split; the boundary is
+   clean, hence inside C03_resp_seg_accept_partial / C03_resp_seg_consumed_obs_partial *)
+Example C03_resp_cr_after_last_chunk_fixed :
+  rboundaries_clean rcfg0 rinit [w_c; w_d2] [] = true /\
+  rdigest (rrun_segs rcfg0 rinit [w_c; w_d2] [] []) = (OErr EInvalidHeader, [(200, [97; 98; 99], [3], false, Some EInvalidHeader)]) /\
+  rdigest (rrun_segs rcfg0 rinit [concat [w_c; w_d2]] [] []) = (OErr EInvalidHeader, [(200, [97; 98; 99], [3], false, Some EInvalidHeader)]).
+Proof. exact ex_cr_after_last_chunk_fixed. Qed.
+Print Assumptions C03_resp_cr_after_last_chunk_fixed.
 
 (* max_field_size = 10, field line "a:34567890" (10 bytes) cut between its CR and LF: LineTooLong when
    split (the buffered-line length check counts the CR), accepted in one read *)
